@@ -264,6 +264,8 @@ def _audit_calls(A, x, U, D):
         "logdet": lambda: cola.linalg.logdet(A), "logdet(Auto)": lambda: cola.linalg.logdet(A, cola.linalg.Auto(), cola.linalg.Auto()),
         "diag": lambda: cola.linalg.diag(A), "diag(Auto)": lambda: cola.linalg.diag(A, 0, cola.linalg.Auto()), "trace": lambda: cola.linalg.trace(A),
         "sqrt@x": lambda: U.sqrt(A) @ x, "sqrt(Auto)@x": lambda: U.sqrt(A, cola.linalg.Auto()) @ x, "exp(Auto)@x": lambda: U.exp(A, cola.linalg.Auto()) @ x, "exp@x": lambda: U.exp(A) @ x,
+        "isqrt@x": lambda: U.isqrt(A) @ x, "isqrt(Auto)@x": lambda: U.isqrt(A, cola.linalg.Auto()) @ x, "log(Auto)@x": lambda: U.log(A, cola.linalg.Auto()) @ x,
+        "pow(0.5)@x": lambda: U.pow(A, 0.5) @ x, "trace(Auto)": lambda: cola.linalg.trace(A, cola.linalg.Auto()),
         "pow(-2)@x": lambda: U.pow(A, -2, cola.linalg.Auto()) @ x, "cholesky@x": lambda: D.cholesky(A) @ x, "plu@x": lambda: D.plu(A)[2] @ x,
     }
 
@@ -276,7 +278,7 @@ def case_audit(T, entry, structure):
     dt = 'float64'
     n1, n2 = 2, 3
 
-    spectral = entry.split("(")[0].split("@")[0] in ("sqrt", "exp", "pow")
+    spectral = entry.split("(")[0].split("@")[0] in ("sqrt", "exp", "pow", "isqrt", "log")
 
     def psd(name, n):
         from . import krylov as K
@@ -342,6 +344,28 @@ def case_generic_paths(T, what):
     was = shim.MODE.get("symbolic")
     shim.symbolic(False)
     try:
+        if what in ("sum-many-terms", "product-many-factors"):
+            # peak additional memory of a product with a many-term Sum / many-factor Product is a fixed multiple of the operand, not one
+            # operand-sized array per term: compare 4 terms with 96 terms of the same kind
+            n1, cols = 30, 64
+            rs = np.random.RandomState(0)
+
+            def peak_for(terms):
+                fs = [ops.Kronecker(ops.Dense(rs.randn(n1, n1)), ops.Dense(rs.randn(n1, n1))) for _ in range(terms)]
+                S = ops.Sum(*fs) if what == "sum-many-terms" else ops.Product(*fs)
+                X = rs.randn(n1 * n1, cols)
+                S @ X
+                tracemalloc.start()
+                try:
+                    S @ X
+                    return tracemalloc.get_traced_memory()[1], X.nbytes
+                finally:
+                    tracemalloc.stop()
+            p4, xb = peak_for(4)
+            p96, _ = peak_for(96)
+            T.check(f"{what}: peak memory of S @ X does not grow with the number of terms", p96 <= p4 + 4 * xb,
+                    f"4 terms: {p4} bytes, 96 terms: {p96} bytes, operand {xb} bytes")
+            return
         if what == "to_dense-tall":
             m, k = 4000, 10
         else:
@@ -377,7 +401,7 @@ def _exact():
 def cases(tier, seed):
     out = []
     # (a wide operator is densified through the generic left product, which needs linear_transpose: not available on the NumPy backend)
-    for what in ("to_dense-tall", "exact-diag", "sum-with-generic-diag"):
+    for what in ("to_dense-tall", "exact-diag", "sum-with-generic-diag", "sum-many-terms", "product-many-factors"):
         out.append((f"generic:{what}", case_generic_paths, dict(what=what), dict(validate=True)))
     for kind in ("kron2", "kron3", "kron4", "kron-rect", "kronsum2", "kronsum3", "blockdiag", "blockdiag-rect", "kron+diag", "kron@kron", "scalar*kron", "kron+identity", "bd@diag",
                  "diag", "identity", "tridiag", "perm"):
@@ -386,8 +410,9 @@ def cases(tier, seed):
     for fname in STRUCT:
         for i, p in enumerate(c04._patterns()[fname]):
             out.append((f"select:{fname}#{i}", case_selection, dict(fname=fname, pattern_index=i)))
-    audits = {"kron": ["inv@x", "inv(Auto)@x", "solve", "logdet", "logdet(Auto)", "diag", "diag(Auto)", "trace", "sqrt(Auto)@x", "sqrt@x", "pow(-2)@x", "cholesky@x", "plu@x"],
-              "blockdiag": ["inv@x", "inv(Auto)@x", "logdet", "diag", "sqrt(Auto)@x", "exp(Auto)@x", "cholesky@x", "plu@x"],
+    audits = {"kron": ["inv@x", "inv(Auto)@x", "solve", "logdet", "logdet(Auto)", "diag", "diag(Auto)", "trace", "sqrt(Auto)@x", "sqrt@x", "pow(-2)@x", "cholesky@x", "plu@x",
+                       "isqrt@x", "isqrt(Auto)@x", "pow(0.5)@x", "trace(Auto)"],
+              "blockdiag": ["inv@x", "inv(Auto)@x", "logdet", "diag", "sqrt(Auto)@x", "exp(Auto)@x", "cholesky@x", "plu@x", "isqrt@x", "log(Auto)@x", "trace(Auto)"],
               "kronsum": ["exp(Auto)@x", "exp@x", "diag"], "kron*scalar": ["inv@x", "logdet"]}
     for st, es in audits.items():
         for e in es:
